@@ -76,6 +76,7 @@ def enumerate_cases(tier):
     out.append({"k": "after-define"})
     out.append({"k": "stale-document"})
     out.append({"k": "long-lived-decoder"})
+    out.append({"k": "cross-world-names"})
     return out
 
 
@@ -173,10 +174,10 @@ def run_case(case) -> core.Outcome:
     c = convgen.ctx()
     m = c.m
     jsonmod = c.w.load("json")
-    if isinstance(case, dict) and case.get("k") in ("prefix-triples", "cross-world", "after-define", "stale-document", "long-lived-decoder"):
+    if isinstance(case, dict) and case.get("k") in ("prefix-triples", "cross-world", "after-define", "stale-document", "long-lived-decoder", "cross-world-names"):
         try:
             {"prefix-triples": _run_prefix_triples, "cross-world": _run_cross_world, "after-define": _run_after_define,
-             "stale-document": _run_stale_document, "long-lived-decoder": _run_long_lived_decoder}[case["k"]](c, case, out)
+             "stale-document": _run_stale_document, "long-lived-decoder": _run_long_lived_decoder, "cross-world-names": _run_cross_world_names}[case["k"]](c, case, out)
         finally:
             convgen.ctx()  # the shared world is the active one again
         return out
@@ -191,6 +192,11 @@ def run_case(case) -> core.Outcome:
         elif kind == "named-unit":
             x = m.Unit._by_name[case["name"]]
             objs = [("unit", x), ("quantity", m.Quantity(3, x)), ("quantity", m.Quantity(Decimal("1.50"), x))]
+            # whole numbers beyond 2**53 as int and as Decimal (with and without an exponent), and
+            # Decimals with more digits than the default context keeps
+            extra = [2**53 + 1, -(10**30), Decimal("9007199254740993"), Decimal(10**30), Decimal("1E+30"), Decimal("-123456789012345678901234567890.123456789"), Decimal("5"), 1e22]
+            k = sum(map(ord, case["name"]))
+            objs += [("quantity", m.Quantity(extra[(k + i) % len(extra)], x)) for i in range(3)]
         elif kind == "compound":
             terms = case["terms"]
             if not isinstance(terms, list) or not terms:
@@ -394,6 +400,43 @@ def _run_cross_world(c, case, out):
     out.classes.append("cross-world:checked")
     out.nontrivial = "cross|" + convgen.terms_str(terms)
     out.sample = {"cross_process_document_of": convgen.terms_str(terms)}
+
+
+def _run_cross_world_names(c, case, out):
+    """writer and reader are two processes whose applications gave the same NAME to different
+    derived dimensions ("density": mass per volume in one, charge per volume in the other).  A
+    unit document carries its dimension; whatever the reader makes of the name, the unit it
+    builds must have the dimension of its factors."""
+    from ..world import World
+
+    w1 = World(["si"])
+    m1 = w1.m
+    j1 = w1.load("json")
+    m1.Dimension.derive(m1.Mass / m1.Volume, "vf15 density", "vfρ")
+    U1 = m1.Unit._by_name
+    xs = [U1["gram"] / U1["meter"] ** 3, (m1.Prefix._by_name["kilo"] * U1["gram"]) / U1["liter"], U1["gram"] ** 2 / U1["meter"] ** 6]
+    docs = [(tuple(x.dimension.exponents), json.dumps(x, cls=j1.MeasuredJSONEncoder), json.dumps(m1.Quantity(3, x), cls=j1.MeasuredJSONEncoder), pickle.dumps(x)) for x in xs]
+    w2 = World(["si"])
+    m2 = w2.m
+    j2 = w2.load("json")
+    m2.Dimension.derive(m2.Charge / m2.Volume, "vf15 density", "vfρ")
+    for want_dim, udoc, qdoc, blob in docs:
+        for codec, fn in (("json", lambda: json.loads(udoc, cls=j2.MeasuredJSONDecoder)), ("json-quantity", lambda: json.loads(qdoc, cls=j2.MeasuredJSONDecoder).unit), ("pickle", lambda: pickle.loads(blob))):
+            try:
+                u2 = fn()
+            except Exception as e:  # noqa -- refusing the document is a sound answer to the conflict
+                out.classes.append(f"cross-world-names:{codec}:refused:{type(e).__name__}")
+                continue
+            have = tuple(u2.dimension.exponents)
+            fac = [0] * len(have)
+            for f, e in u2.factors.items():
+                for i_, x_ in enumerate(f.dimension.exponents):
+                    fac[i_] += x_ * e
+            if have != tuple(fac):
+                out.fail(f"C15:cross-process:{codec}:dimension-by-name", f"a {codec} document of a unit of dimension {want_dim}, named 'vf15 density' by its writer, decoded where that name means {tuple(m2.Dimension._by_name['vf15 density'].exponents)}: the unit reports {have}, its factors give {tuple(fac)}")
+    out.classes.append("cross-world-names:checked")
+    out.nontrivial = "cross-world-names"
+    out.sample = {"scenario": "one dimension name, two meanings, documents cross"}
 
 
 def _run_after_define(c, case, out):
